@@ -113,9 +113,14 @@ func (fr *Frame) call(st *State, v ssa.Value, cc *ssa.CallCommon, in ssa.Instruc
 				return nil, err
 			}
 			f := vc.Fresh(fmt.Sprintf("ret%d", i), srt)
-			st.assume(vc.rangeAssumption(f, rt, st.alloc))
+			if !(nonNil && srt == SIface) {
+				st.assume(vc.rangeAssumption(f, rt, st.alloc))
+			}
 			if nonNil && srt == SIface {
+				// a freshly created error value: non-nil and distinct from every existing one
 				st.assume(Neq(ITag(f), IntLit(0)))
+				st.assume(Ge(Rid(IRefOf(f)), st.alloc))
+				st.alloc = vc.Define("alloc", Add(st.alloc, IntLit(1)))
 			}
 			rs = append(rs, f)
 		}
@@ -133,6 +138,7 @@ func (fr *Frame) call(st *State, v ssa.Value, cc *ssa.CallCommon, in ssa.Instruc
 		return nil
 	}
 
+	fr.callSiteChecks(st, cc, args, in)
 	if cc.IsInvoke() {
 		recv, err := fr.value(cc.Value)
 		if err != nil {
@@ -234,6 +240,78 @@ func (fr *Frame) staticCall(st *State, fn *ssa.Function, binds []Term, args []Te
 	}
 	setResults(rs)
 	return nil
+}
+
+// callSiteChecks emits the call-site assertions of the enclosing contract.
+func (fr *Frame) callSiteChecks(st *State, cc *ssa.CallCommon, args []Term, in ssa.Instruction) {
+	vc := fr.vc
+	if fr.contract == nil || len(fr.contract.CallSites) == 0 {
+		return
+	}
+	var name string
+	var sig *types.Signature
+	var recvT types.Type
+	var all []Term
+	if cc.IsInvoke() {
+		name = cc.Method.Name()
+		sig = cc.Method.Type().(*types.Signature)
+		recvT = cc.Value.Type()
+		rv, err := fr.value(cc.Value)
+		if err != nil {
+			return
+		}
+		all = append([]Term{rv}, args...)
+	} else {
+		switch callee := cc.Value.(type) {
+		case *ssa.Function:
+			name = callee.Name()
+			sig = callee.Signature
+			if sig.Recv() != nil {
+				recvT = sig.Recv().Type()
+			}
+		case *ssa.MakeClosure:
+			name = callee.Fn.Name()
+			sig = callee.Fn.(*ssa.Function).Signature
+		case *ssa.Builtin:
+			return
+		default:
+			return
+		}
+		all = args
+	}
+	matched := false
+	for _, cs := range fr.contract.CallSites {
+		if cs.Callee == name {
+			matched = true
+		}
+	}
+	if !matched {
+		return
+	}
+	n := vc.ordinal("cs:" + fr.path + name)
+	names, tys := sigNames(sig, recvT)
+	if len(names) != len(all) {
+		return
+	}
+	for _, cs := range fr.contract.CallSites {
+		if cs.Callee != name || (cs.Ord != 0 && cs.Ord != n) {
+			continue
+		}
+		env := fr.baseEnv(st)
+		blk := in.Block()
+		env.lookup = func(nm string) (SpecVal, bool) { return fr.lookupLocal(nm, blk, st, nil) }
+		for i, nm := range names {
+			env.vars[nm] = SpecVal{T: all[i], Ty: tys[i]}
+		}
+		t, err := env.EvalBool(cs.Clause.E)
+		if err != nil {
+			vc.note("contract error: callsite %s@%d %s: %v", name, n, cs.Clause.Label, err)
+			continue
+		}
+		vc.addObl(&Obligation{Name: fr.oblName("callsite", fmt.Sprintf("%s.%s@%d", name, cs.Clause.Label, n)), Kind: "callsite", Reach: st.reach, Cond: t,
+			Taint: st.taint, Pos: fr.pos(in.Pos()), Descr: "at call of " + name + ": " + cs.Clause.Src})
+		st.assume(t)
+	}
 }
 
 func shortKey(key string) string {
@@ -381,6 +459,23 @@ func (fr *Frame) applyContract(st *State, c *FuncContract, key string, sig *type
 			vc.note("contract error: %s modifies: %v", key, err)
 			st.taint = True
 			vc.havocAll(st)
+		}
+	}
+	if c.Logged {
+		if gv := vc.ctx.ghostVars["calls_"+c.LogName]; gv != nil {
+			cur, _, _ := vc.ghostVar(st, gv)
+			st.ghost["gv!"+gv.Name] = vc.Define("calls", Add(cur, IntLit(1)))
+		}
+		off := 0
+		if sig.Recv() != nil || recvT != nil {
+			off = 1
+		}
+		for i := 0; i < sig.Params().Len(); i++ {
+			if gv := vc.ctx.ghostVars["arg_"+c.LogName+"_"+sig.Params().At(i).Name()]; gv != nil && off+i < len(args) {
+				if _, _, err := vc.ghostVar(st, gv); err == nil {
+					st.ghost["gv!"+gv.Name] = args[off+i]
+				}
+			}
 		}
 	}
 	if c.ModifiesMaps && !c.ModifiesAll {
@@ -751,6 +846,13 @@ func (fr *Frame) callEffects(ci ssa.CallInstruction, li *loopInfo, ef *effects) 
 func (fr *Frame) contractEffects(c *FuncContract, ef *effects) {
 	for _, g := range c.Assigns {
 		ef.ghostVars[g] = true
+	}
+	if c.Logged {
+		for n := range fr.vc.ctx.ghostVars {
+			if n == "calls_"+c.LogName || strings.HasPrefix(n, "arg_"+c.LogName+"_") {
+				ef.ghostVars[n] = true
+			}
+		}
 	}
 	if c.ModifiesMaps {
 		ef.maps = true
